@@ -164,7 +164,7 @@ def _job(job):
             pos = {a.name: np.array([a.x, a.y, a.z]) for a in res.atoms}
             tpl = {n: np.array([ref.map[n].x, ref.map[n].y, ref.map[n].z]) for n in ref.map}
             # peptide neighbours by distance, not by the model's peptide_c / peptide_n pointers
-            cm, npl = pneigh.get(id(res), [None, None])
+            cm, npl = pneigh.get(id(res), [None, None, False, False])[:2]
             if npl is not None and "N+1" in tpl:
                 pos["N+1"] = np.array(npl.coords)
             if cm is not None and "C-1" in tpl:
